@@ -618,5 +618,5 @@ func replayCase(b []byte, s *rt.Section) *rt.Failure {
 }
 
 func TestReplay(t *testing.T) {
-	rt.Replay(t, "C09", map[string]rt.ReplayFunc{"snap": replayCase, "values": replayCase, "enum": replayEnum})
+	rt.Replay(t, "C09", map[string]rt.ReplayFunc{"snap": replayCase, "values": replayCase, "enum": replayEnum, "capacity": replayCase})
 }
